@@ -94,7 +94,7 @@ def _shape_task(with_type2: bool, seed):
 
     def inv(st: St):
         e = st.env
-        if e.get("mol2_positions", pyvc.UNBOUND) is pyvc.UNBOUND or not isinstance(e["mol2_positions"], M9.SymConf):
+        if pyvc.local(st, "mol2_positions", M9.SymConf) is pyvc.UNBOUND:
             return z3.BoolVal(False)
         held = e["mol2_positions"].t
         if with_type2:
